@@ -448,6 +448,54 @@ func TestVerifC05AppLate(t *testing.T) {
 	s.explore(t)
 }
 
+// C05 flapping inside one second: the resolve arrives shortly before a group tick and the re-fire shortly after it,
+// while the resolved notification is still being delivered - at sub-second offsets, so that two API calls can
+// fall into the same wall-clock second (anything that identifies an update by a coarse timestamp confuses them).
+func evFlap(before, after time.Duration) fEvent {
+	return fEvent{fmt.Sprintf("resolve A %v before the group's next tick, webhook hangs, fire A again %v after the tick", before, after), func(x *fx) bool {
+		if _, ok := x.gt.alerts["A"]; !ok {
+			return false
+		}
+		var last time.Duration = -1
+		for _, a := range x.env.snapshot() {
+			if a.Tick > last {
+				last = a.Tick
+			}
+		}
+		if last < 0 {
+			return false
+		}
+		next := last
+		for next-before <= x.now() {
+			next += 30 * time.Second
+		}
+		time.Sleep(next - before - x.now())
+		x.setMode("r1/webhook/0", mHang)
+		x.resolve("A", "1")
+		time.Sleep(before + after)
+		if x.env.inFlight() == 0 {
+			return true
+		}
+		x.fire("A", "1", time.Hour)
+		return true
+	}}
+}
+
+func TestVerifC05AppFlap(t *testing.T) {
+	fInit(t)
+	c := fMon1()
+	s := &fScenario{prop: "C05", part: "app-flap-within-a-second", yaml: fYAML1, integs: fIntegs1, mon: c, fo: defaultFOpts(), rt: time.Minute,
+		tail: 3 * time.Minute, depthQ: 4, depthT: 5, monitors: stdMonitors(c),
+		events: []fEvent{
+			evAdvance(400 * time.Millisecond), evAdvance(700 * time.Millisecond),
+			{"fire A (end+1h)", func(x *fx) bool { x.fire("A", "1", time.Hour); return true }},
+			{"fire B (same group, end+1h)", func(x *fx) bool { x.fire("B", "1", time.Hour); return true }},
+			evAdvance(10 * time.Second), evAdvance(30 * time.Second),
+			evFlap(300*time.Millisecond, 500*time.Millisecond), evFlap(100*time.Millisecond, 100*time.Millisecond), evFlap(2*time.Second, 3*time.Second),
+		}}
+	s.explore(t)
+}
+
 // checkStatusAPI (C02 / C03): after an event the API reports every alert's suppression status as the ground truth has it.
 func (x *fx) checkStatusAPI() *violation {
 	t := x.now()
